@@ -27,8 +27,12 @@ Fam2R(caps, n1, n2) == { Cfg(c, << Owner(n1), RetiresFrom(4, n2), Region(1) >>, 
 FamRB(caps, n1, n2) == { Cfg(c, << Owner(n1), << O("enter", 1) >> \o RetiresFrom(4, n2) \o << O("leave", 1) >> >>, 1) : c \in caps }
 Fam3R(caps) == { Cfg(c, << Owner(1), RetiresFrom(4, 1), RetiresFrom(8, 1) >>, 0) : c \in caps }
 
-Cfg_q == FamRB({2}, 1, 1) \cup Fam1({1, 2}, {2}) \cup Fam1({1}, {3}) \cup FamD({2}, {2})
-Cfg_full == Fam2R({1, 2}, 1, 1) \cup Fam2R({2}, 2, 1) \cup FamRB({2, 4}, 1, 2) \cup FamRB({2}, 2, 1) \cup Fam3R({1, 2}) \cup Fam({1, 2, 4}, {1, 2, 3, 4}) \cup FamD({1, 2, 4}, {2, 4}) \cup FamRe({1, 2}, {2, 3})
+\* nested region: the inner unlock does not leave, the inner lock does not re-enter
+Nested(r) == << O("enter", r), O("enter", r), O("leave", r), O("leave", r) >>
+FamNest(caps, ns) == { Cfg(c, << Owner(n), Nested(1) >>, 1) : c \in caps, n \in ns }
+
+Cfg_q == FamNest({1}, {1}) \cup FamRB({2}, 1, 1) \cup Fam1({1, 2}, {2}) \cup Fam1({1}, {3}) \cup FamD({2}, {2})
+Cfg_full == FamNest({1, 2}, {1, 2}) \cup Fam2R({1, 2}, 1, 1) \cup Fam2R({2}, 2, 1) \cup FamRB({2, 4}, 1, 2) \cup FamRB({2}, 2, 1) \cup Fam3R({1, 2}) \cup Fam({1, 2, 4}, {1, 2, 3, 4}) \cup FamD({1, 2, 4}, {2, 4}) \cup FamRe({1, 2}, {2, 3})
 Cfg_live == { Cfg(1, << Owner(2), Region(1) >>, 1), Cfg(2, << OwnerD(3), Region(1) >>, 1) }
 
 Next == \/ ColStep
